@@ -1,5 +1,6 @@
 import Tetro.DriverUtil
 import Tetro.Spec.IsaRun
+import Tetro.Spec.IsaBus
 /- driver mode `cpuspec` (spec oracle): replays a `cpu` ops file on the CPU model over the flat bus AND on
 the ISA spec; at every instruction boundary reached by `c` it prints `ok` if the architectural state and
 the memory at every poked/peeked address agree with `stepInstr`, else `MISMATCH …`.  Used to validate the
@@ -14,9 +15,12 @@ structure S where
   bus : Flat
   snap : Option St          -- architectural state at the last boundary (before the instruction)
   watch : List Word         -- addresses touched by poke/peek since reset
+  hist : List Flat          -- bus at the start of every machine cycle of the instruction in flight (newest first)
+  after : List Flat         -- bus after every machine cycle of the instruction in flight (newest first)
+  poked : List Word         -- addresses poked while the instruction is in flight
 
 def flat0 : Flat := { mem := fun _ => 0, ime := true, ie := 0, ifl := 1 }
-def S.init : S := { cpu := Cpu.init, bus := flat0, snap := none, watch := [] }
+def S.init : S := { cpu := Cpu.init, bus := flat0, snap := none, watch := [], hist := [], after := [], poked := [] }
 
 def byteOf (s : String) : Option Byte := (parseHex s).map (BitVec.ofNat 8)
 def wordOf (s : String) : Option Word := (parseHex s).map (BitVec.ofNat 16)
@@ -29,14 +33,75 @@ def willFetch (s : S) : Bool :=
   s.cpu.isFinished && !s.cpu.crashed && !s.cpu.regs.exited && !s.cpu.regs.halted && !s.cpu.regs.stopped &&
   !(pendingBits s.bus != 0 && (s.bus.ime || s.cpu.regs.halted))
 
+/-- the instruction at the boundary state `st` and the state with PC advanced past the opcode -/
+def fetchDecode (st : St) : Option (Instr × St) :=
+  let s0 := if st.eiPending then { st with eiPending := false, bus := { st.bus with ime := true } } else st
+  let op := s0.rd s0.pc
+  if op = 0xcb then
+    let op2 := s0.rd (s0.pc + 1)
+    some (decodeCB op2.toNat, { s0 with pc := if s0.haltbug then s0.pc + 1 else s0.pc + 2, haltbug := false })
+  else (decode op.toNat).map fun i => (i, { s0 with pc := if s0.haltbug then s0.pc else s0.pc + 1, haltbug := false })
+
+/-- documented timing (C03): every data READ takes the value present in its documented machine cycle.
+    `hist` = bus at the start of cycle 1, 2, … (oldest first).  Result: the expected architectural registers. -/
+def timedExpect (st : St) (hist : List Flat) : Option St :=
+  match fetchDecode st with
+  | none => none
+  | some (i, s1) =>
+    let taken := (condOf i).all (·.holds s1)
+    let plan := busPlan i taken
+    let view : Flat := plan.foldl (fun (v : Flat) p =>
+      match p.2.1 with
+      | .rd =>
+        let a := p.2.2.eval s1
+        match hist[p.1 - 1]? with
+        | some f => if a = 0xff0f ∨ a = 0xffff then v else { v with mem := fun x => if x = a then f.read a else v.mem x }
+        | none => v
+      | .wr => v) s1.bus
+    some (exec i { s1 with bus := view })
+
+/-- documented timing of WRITES: an address written in documented cycle c (and not poked by the test) keeps
+    its old value through cycle c-1 and holds its final value from cycle c on -/
+def writesTimedOk (st : St) (after : List Flat) (final : Flat) (poked : List Word) : Bool :=
+  match fetchDecode st with
+  | none => true
+  | some (i, s1) =>
+    let taken := (condOf i).all (·.holds s1)
+    (busPlan i taken).all fun p =>
+      match p.2.1 with
+      | .rd => true
+      | .wr =>
+        let a := p.2.2.eval s1
+        if poked.contains a ∨ (busPlan i taken).any (fun q => q.1 ≠ p.1 ∧ q.2.1 = .wr ∧ q.2.2.eval s1 = a) then true else
+        (List.range after.length).all fun k =>
+          match after[k]? with
+          | some f => if k + 1 < p.1 then f.read a == st.bus.read a else f.read a == final.read a
+          | none => true
+
+def sameRegs (x y : St) : Bool :=
+  x.a == y.a && x.b == y.b && x.c == y.c && x.d == y.d && x.e == y.e && x.h == y.h && x.l == y.l &&
+  x.zf == y.zf && x.nf == y.nf && x.hf == y.hf && x.cf == y.cf && x.sp == y.sp && x.pc == y.pc
+
 def oneCycle (s : S) : S × String :=
-  let s := if willFetch s then { s with snap := some (abs s.cpu.regs s.bus) } else s
+  let s := if willFetch s then { s with snap := some (abs s.cpu.regs s.bus), hist := [], after := [], poked := [] } else s
+  let s := { s with hist := s.bus :: s.hist }
   let r := cycle Tables.gen s.cpu s.bus
-  let s' := { s with cpu := r.1, bus := r.2 }
+  let s' := { s with cpu := r.1, bus := r.2, after := r.2 :: s.after }
   if s'.cpu.isFinished then
     match s.snap with
     | some st =>
       let s'' := { s' with snap := none }
+      if !s.poked.isEmpty then
+        -- memory was changed between the cycles of this instruction: judge by the documented access cycles
+        match timedExpect st s'.hist.reverse with
+        | some want =>
+          let got := abs s'.cpu.regs s'.bus
+          if sameRegs want got then (s'', "ok")
+          else (s'', s!"MISMATCH-TIMING pc={hex4 st.pc} op={hex2 (st.rd st.pc)} a data read did not take the value present in its documented cycle: documented: {showSt want} code: {showSt got}")
+        | none => (s'', "-")
+      else if !writesTimedOk st s'.after.reverse s'.bus s.poked then
+        (s'', s!"MISMATCH-TIMING pc={hex4 st.pc} op={hex2 (st.rd st.pc)} a data write did not land in its documented cycle")
+      else
       match stepInstr st with
       | some want =>
         let got := abs s'.cpu.regs s'.bus
@@ -66,8 +131,9 @@ def step (s : S) (w : List String) : S × String :=
   | ["poke", a, v] =>
     match wordOf a, byteOf v with
     | some a, some v =>
-      -- a poke in the middle of an instruction changes memory under the spec's feet: drop the snapshot
-      ({ s with bus := s.bus.write a v, watch := a :: s.watch, snap := if s.cpu.isFinished then s.snap else none }, "-")
+      -- a poke in the middle of an instruction: remembered, the instruction is then judged by access timing
+      ({ s with bus := s.bus.write a v, watch := a :: s.watch,
+                poked := if s.cpu.isFinished then s.poked else a :: s.poked }, "-")
     | _, _ => (s, "bad-op")
   | ["peek", a] =>
     match wordOf a with
